@@ -72,14 +72,14 @@ func next(kind string) uint64 {
 	return 0 // inputs never reached symbolically are unconstrained
 }
 
-func I64(tag string) int64   { return int64(next("i64")) }
-func U64(tag string) uint64  { return next("u64") }
-func I32(tag string) int32   { return int32(next("i32")) }
-func U32(tag string) uint32  { return uint32(next("u32")) }
-func U16(tag string) uint16  { return uint16(next("u16")) }
-func U8(tag string) uint8    { return uint8(next("u8")) }
-func Int(tag string) int     { return int(int64(next("int"))) }
-func Bool(tag string) bool   { return next("bool") != 0 }
+func I64(tag string) int64  { return int64(next("i64")) }
+func U64(tag string) uint64 { return next("u64") }
+func I32(tag string) int32  { return int32(next("i32")) }
+func U32(tag string) uint32 { return uint32(next("u32")) }
+func U16(tag string) uint16 { return uint16(next("u16")) }
+func U8(tag string) uint8   { return uint8(next("u8")) }
+func Int(tag string) int    { return int(int64(next("int"))) }
+func Bool(tag string) bool  { return next("bool") != 0 }
 func Len(tag string, max int) int {
 	if max <= 0 {
 		return 0 // the engine records no decision for a single alternative
@@ -92,7 +92,7 @@ func Choice(tag string, n int) int {
 	}
 	return int(next("choice"))
 }
-func Concrete(x int) int           { return x }
+func Concrete(x int) int { return x }
 
 func Bytes(tag string, n int) []byte {
 	b := make([]byte, n)
@@ -117,22 +117,22 @@ func Assert(c bool, id string) {
 	}
 }
 
-func Reach(id string)                 {}
-func Known(id string, c bool)         {}
-func Native() bool                    { return true }
+func Reach(id string)         {}
+func Known(id string, c bool) {}
+func Native() bool            { return true }
 
 // EngineOnlyReplay declares that this harness replaces a dependency that cannot be injected natively (a concrete
 // struct method); counterexamples are then confirmed by the engine's re-execution of the recorded path only.
 func EngineOnlyReplay(reason string) {}
-func Replace(name string, model any)  {}
-func Stub(name string)                {}
-func MapOrders(on bool)               {}
-func Interleave(maxSwitches int)      {}
-func Log(v any)                       {}
-func Unsupported(msg string)          { panic("zzverifrt.Unsupported: " + msg) }
-func Timers() int                     { return 0 }
-func FireTimer(k int) bool            { return false }
-func Hex16(x int64) string            { return fmt.Sprintf("%016x", x) }
+func Replace(name string, model any) {}
+func Stub(name string)               {}
+func MapOrders(on bool)              {}
+func Interleave(maxSwitches int)     {}
+func Log(v any)                      {}
+func Unsupported(msg string)         { panic("zzverifrt.Unsupported: " + msg) }
+func Timers() int                    { return 0 }
+func FireTimer(k int) bool           { return false }
+func Hex16(x int64) string           { return fmt.Sprintf("%016x", x) }
 
 // Tier returns 0 for the quick tier and 1 for the thorough tier.
 func Tier() int {
@@ -143,7 +143,7 @@ func Tier() int {
 // SpawnDeferred(true): goroutines spawned by the code under test do not run until the harness calls RunPending
 // (operation-granular interleaving). Natively goroutines are real; Pending is 0 and RunPending waits briefly.
 func SpawnDeferred(on bool) {}
-func Pending() int         { return 0 }
+func Pending() int          { return 0 }
 func RunPending(k int) bool { return false }
 
 // Process runs f; under the engine Crash() kills it without running deferred calls and Process returns true.
@@ -173,5 +173,5 @@ func Report(key string, v any) {
 }
 
 // Symbolize returns s; under the engine the bytes are symbolic variables pinned to s.
-func Symbolize(s string) string    { return s }
+func Symbolize(s string) string  { return s }
 func SymbolizeI64(x int64) int64 { return x }
